@@ -1,6 +1,8 @@
 # Build helpers (sourced). Everything is built from files on disk, offline.
 BUILD=${VERIF_BUILD:-$ROOT/.build}
 mkdir -p "$BUILD"
+# Scratch space for simulated worlds: memory-backed when available, never under /repo or /verif.
+if [ -z "${VERIF_SCRATCH:-}" ] && [ -d /dev/shm ] && [ -w /dev/shm ]; then export VERIF_SCRATCH=/dev/shm/verif-scratch; fi
 export GOFLAGS=-mod=mod GOPROXY=off
 unset GOSUMDB GONOSUMDB GONOSUMCHECK 2>/dev/null || true
 
